@@ -554,8 +554,14 @@ def run(pid, tier, seed, t0):
         samples.append({"id": sid, "proto": sc["proto"], "tls": sc.get("tls"), "acceptor": sc.get("acc"),
                         "steps": summarize_steps(sc["steps"]),
                         "final_srv": sched_map[sid]["recs"][-1]["srv"] if sched_map[sid]["recs"] else None})
+    # extension stages (own specs, same verdict): the in-process duplex transport (Duplex.tla) and the lazily
+    # handshaking TLS streams (TlsStream.tla); each registers only the clauses that belong to this property's text
+    import x_tlsstream
+    tls_stage = x_tlsstream.stage(pid, tier, seed, verdict)
+    duplex_stage = __import__("x_duplex").stage(pid, tier, seed, verdict) if pid == "C09" else None
     code, unlisted = verdict.finish()
     coverage = {
+        "tls_stream_model": tls_stage, "duplex_transport": duplex_stage,
         "states": tot_states, "transitions": tot_trans, "depth": mc.depth, "exhaustive": False,
         "exhaustive_note": "the bounded model is enumerated completely by TLC; the schedules replayed on the real server are a generated sample of its behaviours plus random walks",
         "model_config_with_coverage": mc_cfg, "model_config_states": mc.distinct, "model_configs": model_cfgs, "model_properties": MODEL_PROPS[pid], "other_model_runs": extra_models,
@@ -595,6 +601,13 @@ def run(pid, tier, seed, t0):
 
 def replay(pid, path):
     obj = json.load(open(path))
+    _k = obj.get("replay", obj).get("kind") if isinstance(obj.get("replay", obj), dict) else None
+    if _k == "tlsstream-ops":
+        import x_tlsstream
+        return x_tlsstream.replay(pid, obj)
+    if _k == "duplex-trace":
+        import x_duplex
+        return x_duplex.replay(pid, obj)
     rp = obj.get("replay", obj)
     sched = rp["schedule"] if "schedule" in rp else rp
     out = vlib.outdir(pid)
